@@ -680,8 +680,28 @@ def run(rep, facts):
     rep.rule("R17.8", "RecordHeader::from_bytes validates the version (byte 0) before decoding the record type (byte 1)")
     import check
     for fn in (r17_1_tables, r17_1_from_repr, r17_2_exit_status, r17_3_to_record, r17_4_epilogue, r17_5_response,
-               r17_6_set_lengths, r17_7_layouts, r17_8_version_first):
+               r17_6_set_lengths, r17_7_layouts, r17_8_version_first, r17_9_epilogue_streams):
         check.guard(rep, fn.__name__.split("_")[0].upper().replace("R17", "R17.") + fn.__name__.split("_")[1], fn, facts)
+
+
+def r17_9_epilogue_streams(rep, facts):
+    """R17.9: "one empty record per output stream": the only caller of make_request_epilogue (Request::close) picks the stream list from the
+    writeable flag; the list is the role's output streams only if that flag is read after close() made the request writeable
+    (instance of R7.3, re-evaluated)."""
+    if not facts.has_feature("async"):
+        return
+    import check
+    from . import c07
+    rep.rule("R17.9", "the end-of-request sequence sent by Request::close lists the role's output streams: the writeable flag that selects the list is read only after "
+                      "close() awaited writeable() (R7.3) -- read earlier, a Filter closed before its last input stream gets a bare EndRequest")
+    sr = check.Report("tmp", "quick")
+    c07.run(sr, facts)
+    n = 0
+    for i in sr.instances:
+        if i["rule"] == "R7.3" and i["instance"].startswith("close/writeable-read"):
+            n += 1
+            (rep.ok if i["status"] == "ok" else rep.violation)("R17.9", i["instance"], i["detail"], i["loc"])
+    rep.floor("R17.9", "reads of the writeable flag in close()", n, 1)
 
 
 def main(rep, tier):
@@ -691,5 +711,5 @@ def main(rep, tier):
     rep.floor("R17", "rule instances", len([i for i in rep.instances if i["status"] == "ok"]), 30)
     return rep.finish(
         "Constant/table agreement against a hand-written specification table, plus decision tables and byte-layout maps extracted "
-        "from the encoders/decoders by path enumeration with term substitution (no evaluation).",
+        "from the encoders/decoders by path enumeration with term substitution (no evaluation); the epilogue's stream list is chosen after the request became writeable (R17.9).",
         not_decided="round-trip equality over all field values, reserved-byte behaviour, the arithmetic inside nv::write / number formatting")
